@@ -45,6 +45,9 @@ func c06(w *core.World, r *core.Report) {
 	r.Rule("R06.9", "the in-memory resume position gets a run id only together with the offset that belongs to it", 1)
 	ruleInMemResumePoint(w, r)
 
+	r.Rule("R08.2", "the cache the decision procedure consults reports only completed snapshots after a restart (scan conditions, shared with C08)", 3)
+	ruleScan(w, r)
+
 }
 
 func rulePsyncWire(w *core.World, r *core.Report) {
